@@ -147,6 +147,7 @@ class Pipe:
         self.neg_sent: int | None = None  # server->client offset where proxy negotiation ended
         self.truncate_at: int | None = None  # server->client stream ends (EOF) after this many bytes
         self.noseg_until = 0  # server->client offset below which reads are not segmented (SOCKS negotiation)
+        self.eof_hidden = False  # the end of the stream was signalled inside TLS only (close_notify without FIN)
 
     # ---- server side API used by peers
     def server_send(self, data: bytes, direct: bool = False) -> None:
@@ -164,7 +165,11 @@ class Pipe:
             self.inbound += data
         self.sent += data
 
-    def server_close(self) -> None:
+    def server_close(self, hidden: bool = False) -> None:
+        # hidden: the peer ends its TLS session (close_notify) but keeps the TCP connection for now (it waits for the client's close_notify):
+        # reads see the end of the stream, the socket itself is not "readable" afterwards
+        if hidden and self.tls:
+            self.eof_hidden = True
         if self.in_flight:
             self.eof_pending = True
         else:
@@ -456,6 +461,8 @@ def _extra_info(stream, info):
     if info == "ssl_object":
         return stream.ssl_object
     if info == "is_readable":
+        if pipe.eof_hidden:
+            return (not pipe.client_closed) and (bool(pipe.inbound) or pipe.broken)
         return (not pipe.client_closed) and pipe.readable
     if info == "client_addr":
         return ("127.0.0.1", 50000 + pipe.id)
